@@ -310,3 +310,172 @@ def linearInnovation : (Fin k → Vec α m) → Vec α m → Option (Fin k → V
 end ukf
 
 end BFL
+
+/-! ## Part 2 — circular (Euler angle) and quaternion blocks
+
+`directional_statistics.cpp` (`directional_add`, `directional_sub`, `directional_mean`) and the
+quaternion utilities of `utils.h` (`rotation_vector_to_quaternion`, `quaternion_to_rotation_vector`,
+`sum_quaternion_rotation_vector`, `diff_quaternion`), over any scalar with `Transc`; then
+`sigma_point()` and the moment computation of `unscented_transform()` for an arbitrary `Layout`.
+The dominant-eigenvector routine of `mean_quaternion` (`EigenSolver`) is a parameter whose result
+is passed in (contract: unit eigenvector of `Σ w_j q_j q_jᵀ` for its largest eigenvalue, checked
+numerically on every observed call). -/
+namespace BFL
+
+section circular
+variable {α : Type} [Add α] [Sub α] [Mul α] [Div α] [Neg α] [Zero α] [One α] [OfScientific α]
+variable [LT α] [DecidableLT α] [Transc α] [Inhabited α]
+
+/-- `arg(exp(i x))`: the representative of the angle `x` in `(-π, π]` -/
+def wrapAngle (x : α) : α := Transc.atan2 (Transc.sin x) (Transc.cos x)
+
+/-- entry of `directional_add(a, b)`: `arg(exp(i (a + b)))` -/
+def dirAdd (a b : α) : α := wrapAngle (a + b)
+
+/-- entry of `directional_sub(a, b) = directional_add(a, -b)` -/
+def dirSub (a b : α) : α := wrapAngle (a + (-b))
+
+/-- one row of `directional_mean(a, w)`: a single column is returned as is, otherwise
+    `arg(Σ_k w_k exp(i a_k))` -/
+def dirMean {N : Nat} (a w : Vec α N) : α :=
+  if h : N = 1 then a ⟨0, by omega⟩
+  else Transc.atan2 (fsum N (fun k => Transc.sin (a k) * w k)) (fsum N (fun k => Transc.cos (a k) * w k))
+
+/-- a quaternion `(w, x, y, z)` (real part first) and a rotation vector -/
+structure Quat (α : Type) where
+  w : α
+  x : α
+  y : α
+  z : α
+
+structure V3 (α : Type) where
+  x : α
+  y : α
+  z : α
+
+/-- Eigen's `.norm()` of a 3-vector -/
+def V3.norm (r : V3 α) : α := Transc.sqrt (r.x * r.x + r.y * r.y + r.z * r.z)
+
+/-- `rotation_vector_to_quaternion` (utils.h:138-158), one column -/
+def qexp (r : V3 α) : Quat α :=
+  let nr := r.norm
+  if (1e-4 : α) < nr then
+    let s := Transc.sin (nr / 2.0)
+    ⟨Transc.cos (nr / 2.0), s * r.x / nr, s * r.y / nr, s * r.z / nr⟩
+  else ⟨1, 0, 0, 0⟩
+
+/-- `quaternion_to_rotation_vector` (utils.h:98-119), one column -/
+def qlog (q : Quat α) : V3 α :=
+  let nn := (V3.mk q.x q.y q.z).norm
+  if (1e-4 : α) < nn then
+    if q.w < 0 then
+      let f := (-(2.0 : α)) * Transc.acos (-q.w)
+      ⟨f * q.x / nn, f * q.y / nn, f * q.z / nn⟩
+    else
+      let f := (2.0 : α) * Transc.acos q.w
+      ⟨f * q.x / nn, f * q.y / nn, f * q.z / nn⟩
+  else ⟨0, 0, 0⟩
+
+/-- Hamilton product (`Eigen::Quaternion::operator*`) -/
+def qmul (a b : Quat α) : Quat α :=
+  ⟨a.w * b.w - a.x * b.x - a.y * b.y - a.z * b.z,
+   a.w * b.x + a.x * b.w + a.y * b.z - a.z * b.y,
+   a.w * b.y + a.y * b.w + a.z * b.x - a.x * b.z,
+   a.w * b.z + a.z * b.w + a.x * b.y - a.y * b.x⟩
+
+def qconj (a : Quat α) : Quat α := ⟨a.w, -a.x, -a.y, -a.z⟩
+
+/-- `sum_quaternion_rotation_vector(q, r) = exp(r/2) ⊗ q` -/
+def qsum (q : Quat α) (r : V3 α) : Quat α := qmul (qexp r) q
+
+/-- `diff_quaternion(q_left, q_right) = 2 log(q_left ⊗ q_right*)` -/
+def qdiff (ql qr : Quat α) : V3 α := qlog (qmul ql (qconj qr))
+
+def Quat.get (q : Quat α) (e : Nat) : α :=
+  match e with | 0 => q.w | 1 => q.x | 2 => q.y | _ => q.z
+
+def V3.get (r : V3 α) (e : Nat) : α :=
+  match e with | 0 => r.x | 1 => r.y | _ => r.z
+
+end circular
+end BFL
+
+namespace BFL
+
+section layouts
+variable {α : Type} [Add α] [Sub α] [Mul α] [Div α] [Neg α] [Zero α] [One α] [OfScientific α]
+variable [LT α] [DecidableLT α] [Transc α] [Inhabited α]
+
+/-- total accessors (out-of-range reads give `default`; every use below is in range, see
+    `BFL/Props/C03Circ.lean`) -/
+def Mat.getN {r c : Nat} (A : Mat α r c) (i j : Nat) : α :=
+  if h : i < r ∧ j < c then A ⟨i, h.1⟩ ⟨j, h.2⟩ else default
+
+def Vec.getN {n : Nat} (v : Vec α n) (i : Nat) : α :=
+  if h : i < n then v ⟨i, h⟩ else default
+
+/-- the quaternion stored in rows `r0 … r0+3` of column `j` -/
+def quatAt {r c : Nat} (A : Mat α r c) (r0 j : Nat) : Quat α :=
+  ⟨A.getN r0 j, A.getN (r0 + 1) j, A.getN (r0 + 2) j, A.getN (r0 + 3) j⟩
+
+def quatAtV {n : Nat} (v : Vec α n) (r0 : Nat) : Quat α :=
+  ⟨v.getN r0, v.getN (r0 + 1), v.getN (r0 + 2), v.getN (r0 + 3)⟩
+
+/-- the rotation vector stored in rows `r0 … r0+2` of column `j` -/
+def v3At {r c : Nat} (A : Mat α r c) (r0 j : Nat) : V3 α :=
+  ⟨A.getN r0 j, A.getN (r0 + 1) j, A.getN (r0 + 2) j⟩
+
+/-- `sigma_point()` for one component of an arbitrary layout (sigma_point.cpp:94-118):
+    linear rows `pert + mean`; Euler rows `directional_add`; quaternion rows: column 0 is the
+    mean quaternion, the others `exp(pert/2) ⊗ mean`; noise rows (bottom) `pert + mean`. -/
+def sigmaPointsLayout (ly : Layout) (mean : Vec α ly.dim) (pert : Mat α ly.dof (2 * ly.dof + 1)) :
+    Mat α ly.dim (2 * ly.dof + 1) :=
+  Mat.eval (Mat.of (fun r j =>
+    let r := r.val; let j := j.val
+    if r < ly.lin then pert.getN r j + mean.getN r
+    else if r < ly.lin + ly.circ * ly.csize then
+      if ly.quat then
+        let q := (r - ly.lin) / 4
+        let e := (r - ly.lin) % 4
+        if j = 0 then mean.getN r
+        else (qsum (quatAtV mean (ly.lin + 4 * q)) (v3At pert (ly.lin + 3 * q) j)).get e
+      else dirAdd (pert.getN r j) (mean.getN r)
+    else pert.getN (r - ly.circ * (ly.csize - ly.tsize)) j + mean.getN r))
+
+/-- weighted mean of the propagated points in the output layout (sigma_point.cpp:161-171);
+    `qmean q` is what the eigenvector routine returned for quaternion block `q`. -/
+def utLayoutMean (lyOut : Layout) {N : Nat} (wm : Vec α N) (Y : Mat α lyOut.dim N)
+    (qmean : Nat → Quat α) : Vec α lyOut.dim :=
+  Vec.eval (Vec.of (fun r =>
+    let r := r.val
+    if r < lyOut.lin then fsum N (fun k => Y.getN r k.val * wm k)
+    else if lyOut.quat then (qmean ((r - lyOut.lin) / 4)).get ((r - lyOut.lin) % 4)
+    else dirMean (Vec.of (fun k => Y.getN r k.val)) wm))
+
+/-- offsets of points from a mean in the tangent space of a layout, first `rows` tangent rows
+    (sigma_point.cpp:174-184 for the output, 189-198 for the non-noise input rows) -/
+def utLayoutOffsets (ly : Layout) {N : Nat} (rows : Nat) (Y : Mat α ly.dim N) (mean : Vec α ly.dim) :
+    Mat α rows N :=
+  Mat.eval (Mat.of (fun r j =>
+    let r := r.val; let j := j.val
+    if r < ly.lin then Y.getN r j - mean.getN r
+    else if ly.quat then
+      let q := (r - ly.lin) / 3
+      let e := (r - ly.lin) % 3
+      (qdiff (quatAt Y (ly.lin + 4 * q) j) (quatAtV mean (ly.lin + 4 * q))).get e
+    else dirSub (Y.getN r j) (mean.getN r)))
+
+/-- Moments of one component for arbitrary input / output layouts (loop body of
+    sigma_point.cpp:156-200): output mean, covariance of the tangent-space offsets, and the
+    cross-covariance with the non-noise tangent rows of the input. -/
+def utLayoutComponent (lyIn lyOut : Layout) (w : UTWeight α lyIn.dof) (inMean : Vec α lyIn.dim)
+    (X : Mat α lyIn.dim (2 * lyIn.dof + 1)) (Y : Mat α lyOut.dim (2 * lyIn.dof + 1))
+    (qmean : Nat → Quat α) :
+    Vec α lyOut.dim × Mat α lyOut.dof lyOut.dof × Mat α (lyIn.dof - lyIn.noise) lyOut.dof :=
+  let mean := utLayoutMean lyOut w.mean Y qmean
+  let D := utLayoutOffsets lyOut lyOut.dof Y mean
+  let Din := utLayoutOffsets lyIn (lyIn.dof - lyIn.noise) X inMean
+  (mean, utCov w.cov D D, utCov w.cov Din D)
+
+end layouts
+end BFL
